@@ -35,11 +35,12 @@ class OpSpec:
             out.append(f"{l}{sp}={sp}{rhs}")
         return out
 
-    def var_defs(self):
+    def var_defs(self, dict_form=False):
         d = {}
         for v, (kind, val) in self.vars.items():
             if kind == 'const':
-                d[v] = float(val)
+                # (dict_form: the dictionary form of a variable declaration, which PyRates accepts next to numbers/strings)
+                d[v] = dict(vtype='constant', value=float(val), dtype='float', shape=(1,)) if dict_form else float(val)
             elif kind == 'input':
                 d[v] = f"input({float(val)})"
             elif kind in ('state', 'alg'):
@@ -126,7 +127,7 @@ class FP:
 # --------------------------------------------------------------------------------------------
 # build through the Python classes
 # --------------------------------------------------------------------------------------------
-def build_python(spec: ModelSpec, share_ops=True, share_circuits=False):
+def build_python(spec: ModelSpec, share_ops=True, share_circuits=False, dict_form=False):
     """Returns a CircuitTemplate built with the PyRates Python API."""
     from pyrates import CircuitTemplate, NodeTemplate, OperatorTemplate, EdgeTemplate
     optpl = {}
@@ -134,7 +135,7 @@ def build_python(spec: ModelSpec, share_ops=True, share_circuits=False):
     def get_op(name):
         if not share_ops or name not in optpl:
             o = spec.ops[name]
-            t = OperatorTemplate(name=o.name, path=None, equations=o.eq_strings(), variables=o.var_defs())
+            t = OperatorTemplate(name=o.name, path=None, equations=o.eq_strings(), variables=o.var_defs(dict_form))
             if not share_ops:
                 return t
             optpl[name] = t
